@@ -17,6 +17,8 @@
 namespace vh {
 
 // -------------------------------------------------------------------------- instrumented payload
+struct ThrowOnConstruct {};  // Payload{ThrowOnConstruct{}} throws TestError("ctor")
+
 struct Payload {
   int a = 0;
   int b = ~0;
@@ -32,6 +34,7 @@ struct Payload {
     ++live;
     ++ctor;
   }
+  Payload(ThrowOnConstruct);  // throws before anything is constructed (defined below TestError)
   explicit Payload(int v) : a{v}, b{~v} {
     ++live;
     ++ctor;
@@ -119,6 +122,10 @@ inline std::string Desc(yaclib::Unit) {
 struct TestError : std::runtime_error {
   using std::runtime_error::runtime_error;
 };
+
+inline Payload::Payload(ThrowOnConstruct) {
+  throw TestError{"ctor"};
+}
 
 inline std::string DescExc(const std::exception_ptr& e) {
   try {
